@@ -40,6 +40,9 @@ pub struct Prog {
     /// classic_with_opts argument of compile_clvm_text (true = Python / JS entry point)
     pub with_opts: bool,
     pub corpus: bool,
+    /// include files (name relative to the program's own include directory, contents)
+    #[serde(default)]
+    pub files: Vec<(String, String)>,
 }
 
 #[derive(Serialize, Deserialize, Clone, Debug, PartialEq)]
@@ -511,6 +514,7 @@ pub fn generate(rng: &mut Rng, thorough: bool) -> Workload {
                     ],
                     with_opts: rng.chance(1, 2),
                     corpus: true,
+                    files: vec![],
                 });
                 continue;
             }
@@ -518,12 +522,62 @@ pub fn generate(rng: &mut Rng, thorough: bool) -> Workload {
         // dialect mix biased towards the optimising dialects, which do the most
         let d = *rng.pick(&[0usize, 1, 2, 3, 4, 4, 4, 4, 5, 5, 5, 6, 6, 6]);
         let size = *rng.pick(&[15u32, 30, 50, 80]);
+        let mut text = gen_prog::program(rng, d, size);
+        let mut files: Vec<(String, String)> = Vec::new();
+        let mut search: Vec<String> = vec![];
+        // move some helper forms into include files: same program, but the preprocessor and
+        // read_new_file take part, and every file read is one more interleaving point
+        if rng.chance(1, 3) {
+            if let Some(gen_prog::Sx::List(items)) = gen_prog::parse(&text) {
+                let first_helper = if d == 0 { 2 } else { 3 };
+                let helpers: Vec<usize> = (first_helper..items.len().saturating_sub(1)).collect();
+                if !helpers.is_empty() {
+                    let nfiles = rng.range(1, 2) as usize;
+                    let mut new_items: Vec<gen_prog::Sx> = Vec::new();
+                    let mut buckets: Vec<Vec<gen_prog::Sx>> = vec![Vec::new(); nfiles];
+                    let mut placed = vec![false; nfiles];
+                    for (ix, it) in items.iter().enumerate() {
+                        if helpers.contains(&ix) && rng.chance(1, 2) {
+                            let b = rng.below(nfiles as u64) as usize;
+                            buckets[b].push(it.clone());
+                            if !placed[b] {
+                                placed[b] = true;
+                                let name = format!("lib{}_{}.clib", i, b);
+                                new_items.push(gen_prog::Sx::List(vec![
+                                    gen_prog::Sx::Atom("include".to_string()),
+                                    gen_prog::Sx::Atom(if rng.chance(1, 3) {
+                                        format!("\"{}\"", name)
+                                    } else {
+                                        name
+                                    }),
+                                ]));
+                            }
+                        } else {
+                            new_items.push(it.clone());
+                        }
+                    }
+                    if placed.iter().any(|p| *p) {
+                        text = gen_prog::print(&gen_prog::Sx::List(new_items));
+                        for (b, forms) in buckets.into_iter().enumerate() {
+                            if placed[b] {
+                                files.push((
+                                    format!("lib{}_{}.clib", i, b),
+                                    gen_prog::print(&gen_prog::Sx::List(forms)),
+                                ));
+                            }
+                        }
+                        search = vec![format!("r/p{}", i)];
+                    }
+                }
+            }
+        }
         progs.push(Prog {
             name: format!("p{}.clsp", i),
-            text: gen_prog::program(rng, d, size),
-            search: vec![],
+            text,
+            search,
             with_opts: rng.chance(1, 2),
             corpus: false,
+            files,
         });
     }
     let max_t = if thorough { 8 } else { 4 };
@@ -843,6 +897,17 @@ pub const REF_ENTROPY: u64 = 0x5EED_0000_C05;
 
 pub fn run_one(w: &Workload, tape: &mut Tape, entropy_seed: u64) -> Result<RunReport, String> {
     let progs = Arc::new(w.progs.clone());
+    // include files of generated programs live in the sandbox
+    let _ = std::fs::remove_dir_all("r");
+    for (i, p) in w.progs.iter().enumerate() {
+        let _ = i;
+        for (name, content) in p.files.iter() {
+            for dir in p.search.iter().filter(|d| d.starts_with("r/")) {
+                let _ = std::fs::create_dir_all(dir);
+                let _ = std::fs::write(format!("{}/{}", dir, name), content);
+            }
+        }
+    }
     // phase R
     let world = seam::new_world(1, false, 1_000_000_000_000);
     let mut rp = RefPolicy {
